@@ -42,7 +42,7 @@ static void *verif_malloc(size_t n)
 		errno = ENOMEM;
 		return NULL;
 	}
-	p = malloc(n);
+	p = malloc(n ? n : 1);   /* glibc: malloc(0) returns a unique non-NULL pointer (CBMC would make it nondet) */
 #ifdef VERIF_CBMC
 	__CPROVER_assume(p != NULL);
 #endif
@@ -58,7 +58,7 @@ static void *verif_realloc(void *old, size_t n)
 		errno = ENOMEM;
 		return NULL;
 	}
-	p = malloc(n);
+	p = malloc(n ? n : 1);
 	__CPROVER_assume(p != NULL);
 	if (old != NULL) {
 		size_t osz = __CPROVER_OBJECT_SIZE(old);
